@@ -51,9 +51,9 @@ theorem not_win_of_rep {h : List S} {s : S} (ho : G.over s = none) (hr : Rep3 G 
   | defender _ hr' _ _ => exact hr' hr
 
 /-- a freshly created child, evaluated and numbered, is a sound leaf -/
-theorem newChild_ok (halt : Alternating G) (hatt : att = .white ∨ att = .black) (hsb : SmallBranching G)
+theorem newChild_ok (halt : Alternating G) (hatt : att = .white ∨ att = .black) (hsb : SmallFrom G root)
     {st sta st2 : St S M} {cur nxt : S} {hs : List S} {m : M} {child : Node M}
-    (hst : st.stack = cur :: hs)
+    (hreach : Reach G root cur) (hst : st.stack = cur :: hs)
     (hside : st.focus.isAnd = true ↔ G.toMove cur ≠ att)
     (hm : m ∈ G.moves cur) (happ : G.apply cur m = some nxt)
     (hcm : child.move = m) (hca : child.isAnd = !st.focus.isAnd) (hcx : child.expanded = false)
@@ -77,7 +77,7 @@ theorem newChild_ok (halt : Alternating G) (hatt : att = .white ∨ att = .black
   have hside' : st2.focus.isAnd = true ↔ G.toMove nxt ≠ att := by
     rw [hfa, hca]; exact child_side G att halt hatt hside happ
   have hnum : NumOK G att st2.depthLimited (cur :: hs) nxt c := by
-    apply setNumbers_leaf_ok G att hsb hfx
+    apply setNumbers_leaf_ok G att (hsb nxt (.step hreach ⟨m, hm, happ⟩)) hfx
     · intro hv; rw [hval] at hv; exact .terminal (hvp hv)
     · intro hd hv
       rw [hval] at hv
@@ -113,8 +113,8 @@ theorem childOf_congr {s : S} {n n' c : Node M} {s' : S} (h : n'.isAnd = n.isAnd
   unfold ChildOf; rw [h]
 
 /-- the child loop of `expand`: the new children are sound leaves and account for every move tried -/
-theorem expandLoop_ok (halt : Alternating G) (hatt : att = .white ∨ att = .black) (hsb : SmallBranching G)
-    {cur : S} {hs : List S} :
+theorem expandLoop_ok (halt : Alternating G) (hatt : att = .white ∨ att = .black) (hsb : SmallFrom G root)
+    {cur : S} {hs : List S} (hreach : Reach G root cur) :
     ∀ (ms : List M) (st st' : St S M), st.stack = cur :: hs → (∀ m ∈ ms, m ∈ G.moves cur) →
       (st.focus.isAnd = true ↔ G.toMove cur ≠ att) →
       expandLoop G att st cur ms = some st' →
@@ -158,11 +158,11 @@ theorem expandLoop_ok (halt : Alternating G) (hatt : att = .white ∨ att = .bla
       · rename_i st2 hev
         have hmm : m ∈ G.moves cur := hms m List.mem_cons_self
         obtain ⟨hco, htr, hcx, hdl, hcfg, _, han, hstk, hmv⟩ :=
-          newChild_ok G att halt hatt hsb (st := st) (st2 := st2) (m := m)
+          newChild_ok G att root halt hatt hsb (st := st) (st2 := st2) (m := m)
             (child := { move := m, phi := 0, delta := 0, value := .unknown, irreversible := !G.reversible cur m,
                         expanded := false, isAnd := !st.focus.isAnd, proofDepth := 0, children := [] })
             (sta := ⟨st.cfg, _, _, _, nxt :: cur :: hs, st.depthLimited, st.anomaly⟩)
-            hst hside hmm happ rfl rfl rfl rfl rfl (by simp [hst]) rfl hev
+            hreach hst hside hmm happ rfl rfl rfl rfl rfl (by simp [hst]) rfl hev
         simp only at hcfg han hstk hmv
         rw [hstk] at h
         simp only at h
@@ -211,12 +211,13 @@ theorem expandLoop_ok (halt : Alternating G) (hatt : att = .white ∨ att = .bla
 
 
 /-- the ordinary (non-PN²) path of `expand` on an unsolved, unexpanded focus -/
-theorem expand_normal_ok (halt : Alternating G) (hatt : att = .white ∨ att = .black) (hsb : SmallBranching G)
+theorem expand_normal_ok (halt : Alternating G) (hatt : att = .white ∨ att = .black) (hsb : SmallFrom G root)
     (st st1 : St S M) (cur : S) (hs : List S)
     (hz : ZipOK G att root st) (hst : st.stack = cur :: hs) (hunexp : st.focus.expanded = false)
     (hphi : st.focus.phi ≠ 0) (hdelta : st.focus.delta ≠ 0)
     (hl : expandLoop G att st cur (G.moves cur) = some st1) (stats' : Stats) (an : Bool) :
     ZipOK G att root { st1 with stats := stats', anomaly := an, focus := { st1.focus with expanded := true } } := by
+  have hreach := ZipOK.reach G att root hz hst
   obtain ⟨s, hs0, hst0, ht, hc⟩ := hz
   rw [hst] at hst0
   injection hst0 with e1 e2
@@ -225,7 +226,7 @@ theorem expand_normal_ok (halt : Alternating G) (hatt : att = .white ∨ att = .
   obtain ⟨hnum, _, _, hnil⟩ := ht
   have hkn := hnil hunexp
   obtain ⟨kids, h1, h2, h3, _, _, h6, h7, h8⟩ :=
-    expandLoop_ok G att halt hatt hsb (G.moves cur) st st1 hst (fun m hm => hm) hnum.side hl
+    expandLoop_ok G att root halt hatt hsb hreach (G.moves cur) st st1 hst (fun m hm => hm) hnum.side hl
   have hover : G.over cur = none := by
     rcases hnum.live with h | ⟨_, h | h⟩
     · exact h
